@@ -207,13 +207,13 @@ MAX_M = {2: 7, 3: 4, 4: 3, 5: 2}      # size coupling m = min(N, dkmax+1)
 
 
 @st.composite
-def tempo_shape(draw, d, tier="quick", n_min=1, n_max=None, allow_none=True, min_dkmax=1):
+def tempo_shape(draw, d, tier="quick", n_min=1, n_max=None, allow_none=True, min_dkmax=1, long_runs=False):
     """(N, dkmax, add_correlation_time) respecting the size coupling of DESIGN section 4"""
     # the size coupling is the same in both tiers (one more memory step costs 30..280 s per case, DESIGN section 4);
     # the thorough tier differs by its budgets and by longer runs at short memory
     mmax = MAX_M[d]
     n_cap = n_max or (8 if tier == "quick" else 12)
-    if n_max is None and d <= 3 and draw(st.integers(0, 9)) == 0:
+    if long_runs and n_max is None and d <= 3 and draw(st.integers(0, 9)) == 0:
         # long runs at short memory (N >> dkmax): cheap, and the only place where a small per-step error can accumulate
         N = draw(st.integers(20, 40))
         K = draw(st.integers(max(1, min_dkmax), 2))
